@@ -8,6 +8,10 @@ use crate::refmodel::{self, Cell, End, Machine, Region, Val};
 use crate::vm::{self, AnyVm, Buf, Eng, Out, VmKind};
 use serde_json::{json, Value};
 
+/// C03/C04 compare the compiled program with the interpreter; a compiler that refuses an ordinary
+/// program computes nothing, which the checks report. Above this size (instructions) a refusal is
+/// taken for a size limit of the back end - an error value, as C12 allows - and is not reported.
+pub const COMPILE_MUST_SUCCEED_UP_TO: usize = 100_000;
 pub const GATHER_ID: u32 = 1;
 /// further keys the same helper is registered under: any u32 is a legal key (a negative immediate)
 pub const GATHER_IDS_HIGH: [u32; 3] = [0x7fff_ffff, 0x8000_0001, 0xffff_fff0];
@@ -971,6 +975,10 @@ pub fn check_prog(s: &mut Sink, eng: Eng, c: &ProgCase, rp: &Value) -> ProgStats
                     if c.has_local_call && eng == Eng::Cl {
                         s.outcome("cranelift-refused-local-call", 1);
                         s.count("traces_validated_against_impl", 1);
+                    } else if c.prog.len() > COMPILE_MUST_SUCCEED_UP_TO {
+                        // C12 allows an error value; for very large programs (a back-end size limit) a
+                        // refusal only means there is no compiled program to compare
+                        s.outcome("compile-refused-a-very-large-program(not compared)", 1);
                     } else {
                         s.violation(&format!("{}/{class}/compile-err", eng.name()), format!("compilation refused a verified program: {e}"), rp.clone());
                     }
@@ -1734,12 +1742,8 @@ fn l6_check(s: &mut Sink, eng: Eng) {
     let fixed = VmKind::Fixed(0x40, 0x50);
     // `clobber`: having computed its result, the program overwrites the two pointer slots (and a third
     // slot) of the fixed VM's buffer: the next execution must find fresh pointers there all the same
-    // Fixed(0x4c, 0x50) is the __sk_buff layout the VM's own documentation names: the two 8-byte slots
-    // overlap by four bytes, the interpreter writes data first and data_end second, and a program that
-    // reads the two 32-bit halves gets the low halves of both pointers (their difference is the length)
-    for (kind, clobber) in [(fixed, false), (VmKind::Raw, false), (VmKind::Mbuff, false), (fixed, true), (VmKind::Fixed(0, 8), true), (VmKind::Fixed(0x4c, 0x50), false)] {
+    for (kind, clobber) in [(fixed, false), (VmKind::Raw, false), (VmKind::Mbuff, false), (fixed, true), (VmKind::Fixed(0, 8), true)] {
         let prog: Vec<I> = match kind {
-            VmKind::Fixed(0x4c, 0x50) => vec![I::new(0x61, 2, 1, 0x4c, 0), I::new(0x61, 0, 1, 0x50, 0), I::new(0x1c, 0, 2, 0, 0), isa::EXIT],
             VmKind::Fixed(a, b) => vec![
                 isa::ldxdw(2, 1, a as i16), isa::ldxdw(3, 1, b as i16), isa::mov64r(0, 3), I::new(0x1f, 0, 2, 0, 0), I::new(0x67, 0, 0, 0, 8),
                 isa::ldxb(4, 3, -1), I::new(0x4f, 0, 4, 0, 0), isa::EXIT,
